@@ -88,25 +88,42 @@ def tx_parties(op):
     return t[1], t[0]
 
 
+ADDRS_ORDER = ['hub', 'reward', 'disp', 'reg', 'bsei', 'stsei', 'swap', 'oracle', 'airdrop', 'owner', 'updater', 'keeper',
+               'nobody', 'user0', 'user1', 'user2', 'user3', 'user4', 'user5', 'user6', 'user7']
+DENOMS_ORDER = ['uAtom', 'ujunk', 'usei', 'uusd']
+
+
+def _bank_key(ln):
+    sp = ln.split(' ')
+    a = ADDRS_ORDER.index(sp[1]) if sp[1] in ADDRS_ORDER else len(ADDRS_ORDER)
+    d = DENOMS_ORDER.index(sp[2]) if sp[2] in DENOMS_ORDER else len(DENOMS_ORDER)
+    return (a, d, sp[1], sp[2])
+
+
 def with_transfer(state, sender, target, denom, amt):
     """the dump `state` after a bank transfer of amt denom from sender to target (nothing else changes):
     attached coins reach the target's account before the contract executes, so for the monitors a
-    transaction with attached coins is exactly `transfer; the plain transaction`"""
-    bal = {}
-    rest = []
+    transaction with attached coins is exactly `transfer; the plain transaction`. The bank lines keep the
+    canonical order of the dump (ADDRS order, then DENOMS order; zero balances are not listed)."""
+    banks = {}
+    out = []
+    pos = None
     for ln in state.lines:
         sp = ln.split(' ')
-        if sp[0] == 'bank' and len(sp) == 4 and sp[2] == denom and sp[1] in (sender, target):
-            bal[sp[1]] = int(sp[3])
+        if sp[0] == 'bank' and len(sp) == 4:
+            if pos is None:
+                pos = len(out)
+            banks[(sp[1], sp[2])] = int(sp[3])
         else:
-            rest.append(ln)
+            out.append(ln)
+    if pos is None:
+        # no bank line at all: the block sits directly before the `env` line (PROTOCOL.md section 5)
+        pos = next((i_ for i_, l_ in enumerate(out) if l_.startswith('env ')), len(out))
     if sender != target:
-        bal[sender] = bal.get(sender, 0) - amt
-        bal[target] = bal.get(target, 0) + amt
-    for a, x in bal.items():
-        if x != 0:
-            rest.append('bank %s %s %d' % (a, denom, x))
-    return State(rest)
+        banks[(sender, denom)] = banks.get((sender, denom), 0) - amt
+        banks[(target, denom)] = banks.get((target, denom), 0) + amt
+    block = sorted(('bank %s %s %d' % (a, d, x) for (a, d), x in banks.items() if x != 0), key=_bank_key)
+    return State(out[:pos] + block + out[pos:])
 
 
 def op_kind(op):
